@@ -96,8 +96,10 @@ RE_INITIAL = re.compile(r"^(?:TC )?Q g (?:G[+-] )?BK " + ROUND + r"(?:L- |L\+ R-
 FORWARD_WANT = {
     ("C_", "deepForwardEntryGuard"): {("inv", "wideForwardEntryGuard", "compoActive"), ("req", "wideEntryGuard", "compoRequested")},
     ("C_", "deepForwardExitGuard"): {("inv", "wideForwardExitGuard", "compoActive"), ("req", "wideExitGuard", "compoActive")},
-    ("O_", "deepForwardEntryGuard"): {("bits", "wideForwardEntryGuard", "requested"), ("nobits", "wideForwardEntryGuard", "-")},
-    ("O_", "deepForwardExitGuard"): {("bits", "wideForwardExitGuard", "requested"), ("nobits", "wideForwardExitGuard", "-")},
+    # an orthogonal region commits *every* sub-region (O_::deepChangeToRequested is not filtered by the requested-prong bits, and a request aimed at
+    # the region or at the root sets sub-regions' requested prongs without setting any bit): the guard walk visits every sub-region too
+    ("O_", "deepForwardEntryGuard"): {("?", "wideForwardEntryGuard", "-")},
+    ("O_", "deepForwardExitGuard"): {("?", "wideForwardExitGuard", "-")},
 }
 
 
